@@ -35,6 +35,8 @@ var (
 	flagV       = flag.Bool("v", false, "verbose")
 	flagPkgs    = flag.String("pkgs", "oj,gen,sen,jp,alt,asm,pretty,.", "ojg packages to load")
 	flagJobs    = flag.Int("j", 16, "parallel solver jobs")
+	flagCache   = flag.String("cache", "/verif/cache/unsat.txt", "answer cache: SHA-256 of proved (unsat) query scripts; empty disables")
+	flagNoSave  = flag.Bool("nosave", false, "do not add new answers to the cache file")
 	flagList    = flag.Bool("list", false, "list obligations only")
 	flagDiag    = flag.Bool("diag", false, "diagnose failures (failing conjuncts, candidate models)")
 	flagProf    = flag.String("cpuprofile", "", "write cpu profile")
@@ -85,8 +87,15 @@ func main() {
 		}
 		os.Exit(2)
 	}
+	if *flagCache != "" {
+		symex.Cache = symex.OpenCache(*flagCache)
+	}
 	if *flagProp != "" {
-		os.Exit(runProperty(eng, *flagProp, tier, t0))
+		rc := runProperty(eng, *flagProp, tier, t0)
+		if !*flagNoSave {
+			symex.Cache.Save()
+		}
+		os.Exit(rc)
 	}
 	fmt.Printf("loaded in %.1fs\n", time.Since(t0).Seconds())
 	reps := eng.VerifyAll(func(fc *contract.Func) bool {
@@ -106,8 +115,17 @@ func main() {
 	}
 	fmt.Printf("generated %d obligations in %.1fs\n", len(eng.Obligs), time.Since(t0).Seconds())
 	if *flagList {
+		n := 0
 		for _, o := range eng.Obligs {
+			if *flagOnly != "" && !strings.Contains(o.Name, *flagOnly) {
+				continue
+			}
 			fmt.Println(o.Name, o.Props)
+			if *flagDump != "" && n < 50 {
+				os.MkdirAll(*flagDump, 0o755)
+				os.WriteFile(filepath.Join(*flagDump, fmt.Sprintf("o%04d.smt2", n)), []byte(symex.GroupScript([]*symex.Oblig{o}, true)), 0o644)
+				n++
+			}
 		}
 		return
 	}
@@ -121,6 +139,14 @@ func main() {
 		eng.Obligs = keep
 	}
 	results := symex.Discharge(eng.Obligs, symex.DischargeOpts{Timeout: time.Duration(*flagTimeout) * time.Second, Jobs: *flagJobs, Diagnose: *flagDiag})
+	if !*flagNoSave {
+		if err := symex.Cache.Save(); err != nil {
+			fmt.Println("cache:", err)
+		}
+	}
+	if symex.Cache != nil {
+		fmt.Printf("answer cache: %d queries answered from %s\n", symex.Cache.Hits, *flagCache)
+	}
 	nfail := 0
 	byStatus := map[string]int{}
 	var slow []symex.Result
@@ -197,7 +223,10 @@ func load() (*symex.Engine, error) {
 	prog, _ := ssautil.AllPackages(pkgs, ssa.NaiveForm|ssa.GlobalDebug)
 	prog.Build()
 	eng := symex.NewEngine(prog, pkgs)
-	for _, p := range pkgs {
+	var all []*packages.Package
+	packages.Visit(pkgs, nil, func(p *packages.Package) { all = append(all, p) })
+	sort.Slice(all, func(i, j int) bool { return all[i].PkgPath < all[j].PkgPath })
+	for _, p := range all {
 		if !strings.HasPrefix(p.PkgPath, ojg) || len(p.GoFiles) == 0 {
 			continue
 		}
@@ -386,7 +415,7 @@ func runProperty(eng *symex.Engine, prop, tier string, t0 time.Time) int {
 			guards = append(guards, r.Canary)
 		}
 	}
-	opts := symex.DischargeOpts{Timeout: time.Duration(*flagTimeout) * time.Second, Jobs: *flagJobs, All: tier == "thorough"}
+	opts := symex.DischargeOpts{Timeout: time.Duration(*flagTimeout) * time.Second, Jobs: *flagJobs}
 	results := symex.Discharge(sel, opts)
 	gres := symex.Discharge(guards, symex.DischargeOpts{Timeout: 5 * time.Second, Jobs: *flagJobs, MaxGroup: 1, KeepScripts: true})
 	findings := loadFindings()
